@@ -81,7 +81,7 @@ def rrsig(rng):
     from cryptodatahub.dnsrec.algorithm import DnsSecAlgorithm
     sig_len = rng.choice([32, 64, 64, 96, 128, 256, rng.randrange(5, 300)])
     if rng.random() < 0.04:
-        sig_len = rng.randrange(0, 5)         # with a short signer name: RDATA shorter than HEADER_SIZE = 24
+        sig_len = rng.randrange(0, 5)         # with a short signer name: 19..23 octets of RDATA (fixed part: 18)
     return DnsRecordRrsig(
         type_covered=type_covered(rng), algorithm=rng.choice(list(DnsSecAlgorithm)),
         labels=rng.choice([0, 1, 2, 3, 127, 255]), original_ttl=rng.choice([0, 1, 3600, 86400, 2 ** 31 - 1, 2 ** 31, 2 ** 32 - 1]),
@@ -161,6 +161,10 @@ def dnskey_rdata(rng, kind=None):
         else:
             e = rng.choice([3, 17, 65537, 2 ** 32 + 1, safe_int(rng, rng.choice([1, 2, 3, 4, 8, 255]))])
         n = safe_int(rng, rng.choice([2, 3, 4, 5, 63, 64, 65, 127, 128, 129, 255, 256, 257, 512, rng.randrange(2, 300)]))
+        if rng.random() < 0.1:
+            # moduli at and next to a power of 256 / of two: sized by bit_length(), not by a float logarithm
+            k = rng.choice([1, 4, 8, 64, 128, 256])
+            n = rng.choice([256 ** k, 256 ** k + 1, 256 ** k - 1, 2 ** (8 * k - 1), 2 ** (8 * k - 1) + 1, 1, 255, 256])
         return head + be(alg, 1) + rsa_key_bytes(e, n), kind
     if kind in ('ec256', 'ec384', 'gost'):
         alg, size = {'ec256': (13, 32), 'ec384': (14, 48), 'gost': (12, 32)}[kind]
@@ -172,7 +176,8 @@ def dnskey_rdata(rng, kind=None):
         return head + be(16, 1) + rbytes(rng, 56), kind      # what the library reads; RFC 8080 keys have 57 octets
     t = rng.choice([0, 0, 1, 8])
     size = 64 + 8 * t
-    return (head + be(rng.choice(DSA_ALGS), 1) + be(t, 1) + be(safe_int(rng, 20), 20) + be(safe_int(rng, size), size) +
+    prime = rng.choice([safe_int(rng, size), safe_int(rng, size), 256 ** (size - 1), 256 ** (size - 1) + 1, 256 ** size - 1])
+    return (head + be(rng.choice(DSA_ALGS), 1) + be(t, 1) + be(safe_int(rng, 20), 20) + be(prime, size) +
             be(rng.randrange(1, 256 ** size), size) + be(rng.randrange(1, 256 ** size), size)), 'dsa'
 
 
@@ -194,3 +199,88 @@ MODELLED_GENERATORS = [
 ] if canon_dns.driver_has_dns() else []
 
 FRAMING_MODELLED = set()
+
+
+# ------------------------------------------------------------------------------------------------
+# wire inputs that no compose() produces: RDATA the parsers must refuse or read canonically
+# ------------------------------------------------------------------------------------------------
+
+def raw_dnskey(rng):
+    """DNSKEY RDATA at the edges of what the key parsers accept"""
+    head = be(flags_word(rng) | rng.choice([0, 0, 0x0200, 0x8000]), 2) + b'\x03'
+    rsa = head + be(rng.choice(RSA_ALGS), 1)
+    modulus = min_be(safe_int(rng, rng.choice([1, 2, 64, 65])))
+    size = rng.choice([32, 32, 48])
+    ec = head + be({32: rng.choice([12, 13]), 48: 14}[size], 1)
+    coord = be(safe_int(rng, size), size)
+    t = rng.choice([0, 1])
+    dsa_size = 64 + 8 * t
+    dsa = head + be(rng.choice(DSA_ALGS), 1) + be(t, 1) + be(safe_int(rng, 20), 20)
+    rest = be(rng.randrange(1, 256 ** dsa_size), dsa_size) + be(rng.randrange(1, 256 ** dsa_size), dsa_size)
+    return rng.choice([
+        head + be(rng.choice([0, 2]), 1) + rbytes(rng, rng.choice([0, 10, 64])),   # DELETE, DH: no signature key type
+        rsa + b'\x03\x01\x00\x01',                                  # no modulus octets
+        rsa + b'\x03\x01\x00\x01' + bytes(rng.choice([1, 64])),   # modulus 0 in some octets
+        rsa + b'\x01\x00' + modulus,                                # exponent 0
+        rsa + b'\x00\x00\x00' + modulus,                            # exponent of no octets (long length form)
+        rsa + b'\x03\x00\x00\x00' + modulus,                        # exponent 0 in three octets
+        rsa + b'\x03\x01\x00\x01\x01' + bytes(rng.choice([1, 64, 128])),          # modulus 256^k
+        rsa + b'\x03\x01\x00\x01\x01' + bytes(rng.choice([63, 127])) + b'\x01',   # modulus 256^k + 1
+        rsa + b'\x03\x01\x00\x01' + bytes(rng.choice([1, 3])) + modulus,          # leading zero octets (tolerated)
+        rsa + b'\x03\x00\x00\x03' + modulus,                        # exponent with leading zero octets (tolerated)
+        rsa + b'\x00\x00\x03\x01\x00\x01' + modulus,                # long length form for a short exponent (tolerated)
+        ec + bytes(size) + coord,                                    # x = 0
+        ec + coord + bytes(size),                                    # y = 0
+        ec + be(256 ** rng.randrange(0, size), size) + be(rng.choice([1, 255]), size),   # wider coordinate a power of 256
+        ec + be(1, size) + be(1, size),
+        ec + coord + coord + rbytes(rng, rng.choice([1, 2, 32])),    # octets after the key
+        head + be(15, 1) + rbytes(rng, 32 + rng.choice([1, 2, 25])),
+        head + be(16, 1) + rbytes(rng, 57),                          # an RFC 8080 Ed448 key: 57 octets
+        dsa + b'\x00' + rbytes(rng, dsa_size - 1) + rest,            # prime with a leading zero octet
+        dsa + bytes(dsa_size) + rest,                                # prime 0
+        dsa + be(256 ** (dsa_size - 1), dsa_size) + rest,            # prime 256^(size-1): fills its octets
+        dsa + be(safe_int(rng, dsa_size), dsa_size) + rest + rbytes(rng, rng.choice([1, 8])),   # octets after the key
+        dsa + be(safe_int(rng, dsa_size), dsa_size) + rest[:-rng.choice([1, 8, dsa_size])],     # truncated
+    ])
+
+
+def raw_name(rng):
+    """names at and beyond the limits of RFC 1035 2.3.4, and labels holding the label separator"""
+    def lab(n, ch=None):
+        return bytes([n]) + (ch or label(rng, 1).encode('ascii')) * n
+    return rng.choice([
+        lab(63) + b'\x00', lab(64) + b'\x00', lab(rng.choice([65, 127, 128, 191, 192, 255])) + b'\x00',
+        lab(63) * 3 + lab(61) + b'\x00',             # 255 octets
+        lab(63) * 3 + lab(62) + b'\x00',             # 256 octets
+        lab(63) * rng.choice([4, 5]) + b'\x00',
+        lab(1) * 127 + b'\x00', lab(1) * 128 + b'\x00',
+        lab(1) * 127 + lab(1)[:1],                   # the limit is reached before the name ends: NotEnoughData first
+        b'\x03a.b\x00', b'\x04a..b\x00', b'\x01.\x00', b'\x02a.\x00', b'\x02.a\x00',
+        lab(63) + b'\x7f' + b'a' * 63 + b'.' + b'b' * 63 + b'\x00',     # 127 octets that the idna codec takes as two pieces
+        lab(3) + bytes([0xc0, 0x0c]),                # a compression pointer
+    ])
+
+
+def raw_mx(rng):
+    return be(rng.randrange(65536), 2) + raw_name(rng)
+
+
+def raw_rrsig(rng):
+    fixed = (be(rng.choice([1, 48, 0xff00, 0xfeff, 0xffff]), 2) + be(rng.choice([8, 13, 15]), 1) + be(rng.randrange(4), 1) +
+             be(3600, 4) + be(rng.randrange(2 ** 32), 4) + be(rng.randrange(2 ** 32), 4) + be(rng.randrange(65536), 2))
+    return rng.choice([
+        fixed,                                                       # 18 octets: the signer's name is missing
+        fixed + b'\x00',                                             # 19 octets: root signer, empty signature
+        fixed + b'\x00' + rbytes(rng, rng.randrange(1, 5)),          # 20..23 octets
+        fixed + b'\x01a\x00' + rbytes(rng, rng.randrange(0, 3)),
+        fixed[:rng.randrange(0, 18)],
+        fixed + raw_name(rng) + rbytes(rng, rng.choice([0, 4, 64])),
+    ])
+
+
+RAW_INPUTS = [
+    ('DnsRecordDnskey', raw_dnskey),
+    ('DnsNameUncompressed', raw_name),
+    ('DnsRecordMx', raw_mx),
+    ('DnsRecordRrsig', raw_rrsig),
+] if canon_dns.driver_has_dns() else []
